@@ -20,10 +20,41 @@ _MAX = 24
 class _Sub(ast.NodeTransformer):
     def __init__(self, env: Dict[str, ast.expr]):
         self.env = env
+        self.shadow: List[Set[str]] = []
 
     def visit_Name(self, node: ast.Name):
-        if isinstance(node.ctx, ast.Load) and node.id in self.env:
+        if isinstance(node.ctx, ast.Load) and node.id in self.env and not any(node.id in s for s in self.shadow):
             return copy.deepcopy(self.env[node.id])
+        return node
+
+    def _comp(self, node):
+        # names bound by the comprehension's own `for` clauses shadow function-level locals of the same name
+        bound = {n.id for g in node.generators for n in ast.walk(g.target) if isinstance(n, ast.Name)}
+        # the first iterable is evaluated in the enclosing scope
+        node.generators[0].iter = self.visit(node.generators[0].iter)
+        self.shadow.append(bound)
+        try:
+            for i, g in enumerate(node.generators):
+                if i:
+                    g.iter = self.visit(g.iter)
+                g.ifs = [self.visit(c) for c in g.ifs]
+            if isinstance(node, ast.DictComp):
+                node.key = self.visit(node.key)
+                node.value = self.visit(node.value)
+            else:
+                node.elt = self.visit(node.elt)
+        finally:
+            self.shadow.pop()
+        return node
+
+    visit_ListComp = visit_SetComp = visit_GeneratorExp = visit_DictComp = _comp
+
+    def visit_Lambda(self, node: ast.Lambda):
+        self.shadow.append({a.arg for a in node.args.args})
+        try:
+            node.body = self.visit(node.body)
+        finally:
+            self.shadow.pop()
         return node
 
 
